@@ -2,7 +2,7 @@ import FDAModel.LocalPolyIO
 import FDAModel.Predict
 open FDA FDA.Proto FDA.PS
 
-/-! Driver of C07: evaluates the model's own `predict`, `predictRebuilt`, `predict2`, `covAt`
+/-! Driver of C07: evaluates the model's own `predict`, `predictRebuilt`, `predict2Tab` (= `predict2`), `covAtTab` (= `covAt`)
 (FDAModel/Predict.lean) with the coefficients and the FIT domain supplied by the harness;
 local-polynomial requests (`lp1`, `lp2`) go to the C06 front end (`lpPredict1/2`). -/
 
@@ -40,7 +40,7 @@ def answer (l : String) : String :=
                         dmin2 := dmin2, dmax2 := dmax2, nseg2 := nseg2, deg2 := deg2, beta := rd2 ba }
       let fa : Fit2 := { f with beta := rd2 absb }
       -- scale: Σ |β_ab| B_a B_b (B-splines are non-negative up to rounding) at the first query pair
-      showMat (predict2 f Q1 Q2) ++ " " ++ showMat (predict2 fa Q1 Q2)
+      showMat (predict2Tab f Q1 Q2) ++ " " ++ showMat (predict2Tab fa Q1 Q2)
     | _, _, _, _, _, _, _, _, _, _, _ => "bad"
   | ["cov", a1, b1, ns1, dg1, a2, b2, ns2, dg2, be, q] =>
     match parseRat? a1, parseRat? b1, ns1.toNat?, dg1.toNat?, parseRat? a2, parseRat? b2, ns2.toNat?, dg2.toNat?,
@@ -54,7 +54,7 @@ def answer (l : String) : String :=
       let f : Fit2 := { dmin1 := dmin1, dmax1 := dmax1, nseg1 := nseg1, deg1 := deg1,
                         dmin2 := dmin2, dmax2 := dmax2, nseg2 := nseg2, deg2 := deg2, beta := rd2 ba }
       let fa : Fit2 := { f with beta := rd2 absb }
-      showMat (covAt f Q) ++ " " ++ showMat (covAt fa Q)
+      showMat (covAtTab f Q) ++ " " ++ showMat (covAtTab fa Q)
     | _, _, _, _, _, _, _, _, _, _ => "bad"
   | toks => FDA.LP.IO.answerTokens toks
 
